@@ -1,3 +1,4 @@
+use crate::io::grow_declared;
 use crate::{constants::HEADER_SIZE, error::RepeError, header::Header, message::Message};
 use tokio::io::{AsyncRead, AsyncReadExt, AsyncWrite, AsyncWriteExt};
 
@@ -5,11 +6,13 @@ pub async fn read_message_async<R: AsyncRead + Unpin>(r: &mut R) -> Result<Messa
     let mut hdr = [0u8; HEADER_SIZE];
     r.read_exact(&mut hdr).await?;
     let header = Header::decode(&hdr)?;
-    let mut query = vec![0u8; header.query_length as usize];
+    let mut query = Vec::new();
+    grow_declared(&mut query, header.query_length as usize)?;
     if !query.is_empty() {
         r.read_exact(&mut query).await?;
     }
-    let mut body = vec![0u8; header.body_length as usize];
+    let mut body = Vec::new();
+    grow_declared(&mut body, header.body_length as usize)?;
     if !body.is_empty() {
         r.read_exact(&mut body).await?;
     }
@@ -30,7 +33,7 @@ pub async fn read_message_into_async<R: AsyncRead + Unpin>(
     r.read_exact(&mut buf[..HEADER_SIZE]).await?;
     let header = Header::decode(&buf[..HEADER_SIZE])?;
     let total = HEADER_SIZE + header.query_length as usize + header.body_length as usize;
-    buf.resize(total, 0);
+    grow_declared(buf, total)?;
     r.read_exact(&mut buf[HEADER_SIZE..total]).await?;
     Ok(())
 }
